@@ -338,32 +338,24 @@ theorem C07_session_answered_once (cfg : Cfg) (pre post : List Case) (c : Case) 
 
 /-! ### every write path of the handler's encoder runs the detector -/
 
-/-- the three methods a handler can write with -/
-inductive WriteMethod | encodeToken | encode | encodeElement
-  deriving DecidableEq, Repr
+/-- the methods a handler can write with and the kinds of value it can hand them (numbering of
+the probe table): `EncodeToken`; `Encode` with an `xmlstream.Marshaler`, an `xmlstream.WriterTo`,
+an `xml.TokenReader`, a plain struct; `EncodeElement` with a Marshaler, a WriterTo -/
+def writeMethods : List Nat := [0, 1, 2, 3, 4, 5, 6]
 
-/-- where a method of `responseChecker` sends its tokens, as read from the source: through the
-checker's own `EncodeToken` (`true`) or around it -/
-def routesThroughChecker (paths : List (String × String)) (m : WriteMethod) : Bool :=
-  match m with
-  | .encodeToken => paths.contains ("EncodeToken", "detector checker.TokenWriter.EncodeToken")
-  | .encode => paths.contains ("Encode", "marshal.EncodeXML(checker)")
-  | .encodeElement => paths.contains ("EncodeElement", "marshal.EncodeXMLElement(checker)")
-
-/-- **tie to the source (regenerated from the AST of session.go on every run)**: `responseChecker`
-has exactly three writing methods; `Encode` and `EncodeElement` marshal into the checker itself
-(so every token they produce passes `EncodeToken`), and `EncodeToken` runs the detector before
-it hands the token to the session's writer — no method writes around the detector -/
+set_option maxRecDepth 20000 in
+/-- **tie to the source (regenerated on every run by probing real sessions, no source pattern
+involved)**: for every probed shape — the complete domain nesting level 0–2 × name class × id
+class × type class through `EncodeToken`, and the part of it that shows whether the detector ran
+and at which level through every other method — the real session took what the handler wrote
+for the reply exactly when the model's detector sets its flag; every method occurs in the table
+with a shape that was recognised and one that was not (a write path around the detector, a
+detector that ignores the level, the id, the type or the namespace all change the table) -/
 theorem C07_gen_write_paths :
-    Generated.C07.writePaths = some [
-      ("Encode", "marshal.EncodeXML(checker)"),
-      ("EncodeElement", "marshal.EncodeXMLElement(checker)"),
-      ("EncodeToken", "detector checker.TokenWriter.EncodeToken")] ∧
-    ∃ paths, Generated.C07.writePaths = some paths ∧ paths.length = 3 ∧
-      ∀ m : WriteMethod, routesThroughChecker paths m = true := by
-  refine ⟨by decide, _, rfl, by decide, ?_⟩
-  intro m
-  cases m <;> decide
+    ∃ t, Generated.C07.detectorProbe = some t ∧ t.length = 454 ∧
+      (∀ e ∈ t, probeVerdict e.2.1 e.2.2.1 e.2.2.2.1 e.2.2.2.2.1 = e.2.2.2.2.2) ∧
+      (∀ m ∈ writeMethods, (t.any fun e => e.1 == m && e.2.2.2.2.2) ∧ (t.any fun e => e.1 == m && !e.2.2.2.2.2)) := by
+  refine ⟨_, rfl, by decide, by decide, by decide⟩
 
 /-- the detector's verdict depends only on the tokens that the handler's writes put on the
 stream, in order — not on how they were grouped into calls, nor (given `C07_gen_write_paths`)
@@ -565,5 +557,116 @@ example :
 
 example : topReplies "q1" [Tok.start ⟨"", "iq"⟩ [attr "id" "q1", attr "type" "result"], .stop ⟨"", "iq"⟩]
     = [Tok.start ⟨"", "iq"⟩ [attr "id" "q1", attr "type" "result"]] := by decide
+
+/-! ### handlers that edit the start element they are handed -/
+
+/-- **what the handler does to its copy of the request is irrelevant**: a handler is handed a
+pointer to the start element and may rewrite its type, name, id or attributes in place; whether
+a reply is owed, which id it carries and whom it is addressed to are decided by what the peer
+sent: the step is the same for every edit (the differential run executes the edits on the real
+session) -/
+theorem C07_start_edit_irrelevant (cfg : Cfg) (rs : RS) (prog : Prog) (k : Nat) :
+    handleInputStream cfg rs { prog with edit := k } = handleInputStream cfg rs prog := by
+  unfold handleInputStream
+  split <;> rfl
+
+theorem C07_serveF_edit_irrelevant (cfg : Cfg) (f : Prog → Nat) : ∀ (fuel : Nat) (rs : RS) (progs : List Prog),
+    serveF cfg fuel rs (progs.map fun p => { p with edit := f p }) = serveF cfg fuel rs progs := by
+  intro fuel
+  induction fuel with
+  | zero => intro rs progs; rfl
+  | succ fuel ih =>
+    intro rs progs
+    have hh : handleInputStream cfg rs ((progs.map fun p => { p with edit := f p }).headD Prog.nop)
+        = handleInputStream cfg rs (progs.headD Prog.nop) := by
+      cases progs with
+      | nil => rfl
+      | cons p ps => exact C07_start_edit_irrelevant cfg rs p (f p)
+    unfold serveF
+    rw [hh]
+    split
+    · rfl
+    · rename_i inv w rs' _
+      have : (progs.map fun p => { p with edit := f p }).tail = progs.tail.map fun p => { p with edit := f p } := by
+        cases progs <;> rfl
+      cases hi : inv.isSome
+      · simp only [Bool.false_eq_true, if_false, ih]
+      · simp only [if_true, this, ih]
+
+/-- the same for a whole session: whatever edits the handlers of a session make, invocations,
+written elements and the value `Serve` returns are those of the session without edits -/
+theorem C07_session_edit_irrelevant (cfg : Cfg) (inp : List Tok) (progs : List Prog) (f : Prog → Nat) :
+    serve cfg inp (progs.map fun p => { p with edit := f p }) = serve cfg inp progs :=
+  C07_serveF_edit_irrelevant cfg f _ _ _
+
+/-! ### a connection that refuses writes -/
+
+/-- **a lost reply terminates the stream**: when the flush of what an invocation wrote (the
+handler's own reply or the automatic error) is refused by the connection, the session ends right
+there with the write error: nothing reaches the peer from that step, and no later element is
+handled -/
+theorem C07_lost_reply_terminates (cfg : Cfg) (fuel : Nat) (rs rs' : RS) (progs : List Prog)
+    (inv : Option Inv) (w : List Tok)
+    (hstep : handleInputStream cfg rs (progs.headD Prog.nop) = .next inv w rs') (hw : w ≠ []) :
+    serveFW cfg (fuel + 1) 0 rs progs = { invs := inv.toList, written := [], result := .error .writeFault } := by
+  unfold serveFW
+  rw [hstep]
+  have : w.isEmpty = false := by cases w <;> simp_all
+  simp [this]
+
+/-- once the connection accepts no more writes `Serve` never returns nil, however the input
+goes on (even the closing tag cannot be sent) -/
+theorem C07_write_fault_never_clean (cfg : Cfg) : ∀ (fuel : Nat) (rs : RS) (progs : List Prog),
+    (serveFW cfg fuel 0 rs progs).result ≠ .clean := by
+  intro fuel
+  induction fuel with
+  | zero => intro rs progs; simp [serveFW]
+  | succ fuel ih =>
+    intro rs progs
+    unfold serveFW
+    split
+    · rename_i inv w res _
+      cases hw : w.isEmpty <;> simp [hw]
+    · rename_i inv w rs' _
+      cases hw : w.isEmpty
+      · simp [hw]
+      · simp only [hw, if_true]
+        exact ih _ _
+
+/-- a connection that accepts more writes than the session can make serves exactly like one
+that never fails -/
+theorem C07_no_fault_same (cfg : Cfg) : ∀ (fuel left : Nat) (rs : RS) (progs : List Prog),
+    fuel + 1 < left → serveFW cfg fuel left rs progs = serveF cfg fuel rs progs := by
+  intro fuel
+  induction fuel with
+  | zero => intro left rs progs _; rfl
+  | succ fuel ih =>
+    intro left rs progs h
+    unfold serveFW serveF
+    split
+    · rename_i inv w res _
+      have h0 : (left == 0) = false := by simp; omega
+      cases hw : w.isEmpty
+      · have : (left - 1 == 0) = false := by simp; omega
+        simp [hw, h0, this]
+      · simp [hw, h0]
+    · rename_i inv w rs' _
+      have h0 : (left == 0) = false := by simp; omega
+      cases hw : w.isEmpty
+      · simp only [hw, h0, Bool.false_eq_true, if_false]
+        rw [ih (left - 1) _ _ (by omega)]
+      · simp only [hw, if_true]
+        rw [ih left _ _ (by omega)]
+        have : w = [] := by cases w <;> simp_all
+        simp [this]
+
+example : (serveW { ns := nsClient, localBare := "me@example.com", jidCanon := fun s => some s } 0
+    [.start ⟨nsClient, "iq"⟩ [attr "type" "get", attr "id" "a1"], .stop ⟨nsClient, "iq"⟩,
+     .start ⟨nsClient, "message"⟩ [], .stop ⟨nsClient, "message"⟩, .stop ⟨nsStream, "stream"⟩] []).result
+    = .error .writeFault ∧
+  (serveW { ns := nsClient, localBare := "me@example.com", jidCanon := fun s => some s } 0
+    [.start ⟨nsClient, "iq"⟩ [attr "type" "get", attr "id" "a1"], .stop ⟨nsClient, "iq"⟩,
+     .start ⟨nsClient, "message"⟩ [], .stop ⟨nsClient, "message"⟩, .stop ⟨nsStream, "stream"⟩] []).invs.length = 1 := by
+  decide
 
 end XmppModel.Props.C07
